@@ -33,6 +33,9 @@ Confs == << <<"full", TRUE, Zero, Zero>>, <<"full", FALSE, Q(-7, 2), Zero>>, <<"
             <<"he-normal", FALSE, QI(1), Zero>>, <<"he-normal", FALSE, QI(8), Zero>>, <<"he-normal", FALSE, QI(50), Zero>>,
             <<"xavier-uniform", FALSE, QI(1), QI(1)>>, <<"xavier-uniform", FALSE, QI(3), QI(5)>>, <<"xavier-uniform", FALSE, QI(30), QI(2)>>,
             <<"xavier-normal", FALSE, QI(1), QI(1)>>, <<"xavier-normal", FALSE, QI(4), QI(12)>>, <<"xavier-normal", FALSE, QI(2), QI(30)>>,
+            \* odd fan sums (an averaged fan computed in integers would be off by a half), odd fans
+            <<"xavier-uniform", FALSE, QI(1), QI(2)>>, <<"xavier-uniform", FALSE, QI(3), QI(4)>>, <<"xavier-normal", FALSE, QI(1), QI(2)>>, <<"xavier-normal", FALSE, QI(2), QI(5)>>,
+            <<"he-uniform", FALSE, QI(3), Zero>>, <<"he-normal", FALSE, QI(5), Zero>>,
             <<"randu", FALSE, QI(-1), QI(1)>>, <<"randu", FALSE, Zero, Q(1, 1000)>>, <<"randn", FALSE, QI(2), QI(3)>>, <<"randn", FALSE, Zero, Q(1, 100)>> >>
 ShapesQ == << <<>>, <<7>>, <<2, 3>>, <<3, 1, 4>>, <<2, 2, 2, 3>>, <<40, 25>>, <<128, 130>> >>
 
